@@ -8,16 +8,21 @@
    * [pointers]: `while (consume "*") { ty = pointer_to(ty); while (const|volatile|restrict) skip; }`.
      The flag says whether a `*` has been seen (qualifiers are skipped only behind a `*`).
      (__restrict, __restrict__ are spellings of restrict; `_Atomic` here sets is_atomic - not modelled.)
-   * [declarator]: after the pointers, if the next token is "(" the inner declarator is parsed ONCE WITH A DUMMY
+   * [declarator]: after the pointers, if the next token is "(" - and the token behind it is neither ")" nor a
+     type keyword (then the "(" opens the parameter list of a function declarator whose identifier is omitted,
+     fix 8507b9f; a typedef name there is outside the model) - the inner declarator is parsed ONCE WITH A DUMMY
      type only to find the ")" where the suffix starts, then the suffix is parsed and applied to the real type,
      then the inner declarator is parsed AGAIN from the same "(" with the suffixed type; the tokens the second
      pass stops at are thrown away and the rest is what the suffix parse left.  Otherwise an identifier is
      optional (this function also parses the abstract declarators of parameters), then the suffix.
-   * [abstract_declarator]: the same without the identifier.
+   * [abstract_declarator]: the same without the identifier (its test is is_typename(tok->next), which differs from
+     declarator's only on typedef names).
    * [type_suffix]: "(" -> func_params, "[" -> array_dimensions, otherwise nothing.
-   * [array_dimensions]: skips `static` / `restrict`; "]" -> array_of(suffix(ty), -1); otherwise a constant
-     expression (one [TNum] token here; anything else is [Err]: it is either a syntax error or a variable
-     length array, which is outside this model), "]", and array_of(suffix(ty), (int) value).
+   * [array_dimensions]: skips `static` and the type qualifiers (fix 053b61b); "]" -> array_of(suffix(ty), -1);
+     otherwise a constant expression (one [TNum] token here; anything else is [Err]: it is either a syntax error
+     or a variable length array, which is outside this model), "]", the suffix, and then (fix fbdf355)
+         if (len > INT32_MAX / MAX(ty->size, 1)) error_tok(start, "array too large");
+     = [TooLarge]; otherwise array_of(suffix(ty), (int) len).
      NOTE the recursion: `[2][3]` builds array_of(array_of(ty,3),2), and a "(" behind a "]" IS parsed.
    * [func_params]: `void )` is special; otherwise the loop `while (!equal(tok, ")"))`: a "," between
      parameters, `...` must be followed by ")", a parameter is declspec + declarator, arrays become pointers to
@@ -38,7 +43,8 @@
    for which is_typename holds), attributes and the error messages are not represented.
 
    Every function takes fuel (the C functions recurse on later and later tokens); [OutOfFuel] is distinct from
-   [Err] ("chibicc reports an error, or the input leaves the modelled token language"). *)
+   [Err] ("chibicc reports a syntax error, or the input leaves the modelled token language") and from [TooLarge]
+   (error_tok "array too large").  error_tok exits: the first failure in execution order is the result. *)
 From Coq Require Import List ZArith Bool.
 From Chibicc Require Import Spec.DeclSyntax.
 Import ListNotations.
@@ -80,11 +86,11 @@ Definition adjust_param (t : mty) : mty :=
   | _ => t
   end.
 
-Inductive res (A : Type) := Ok (a : A) | Err | OutOfFuel.
-Arguments Ok {A} a. Arguments Err {A}. Arguments OutOfFuel {A}.
+Inductive res (A : Type) := Ok (a : A) | Err | TooLarge | OutOfFuel.
+Arguments Ok {A} a. Arguments Err {A}. Arguments TooLarge {A}. Arguments OutOfFuel {A}.
 
 Definition bind {A B} (r : res A) (f : A -> res B) : res B :=
-  match r with Ok a => f a | Err => Err | OutOfFuel => OutOfFuel end.
+  match r with Ok a => f a | Err => Err | TooLarge => TooLarge | OutOfFuel => OutOfFuel end.
 Notation "'do' x <- e ; f" := (bind e (fun x => f)) (at level 200, x pattern, e at level 100, f at level 200).
 
 Fixpoint pointers (seen_star : bool) (toks : list tok) (ty : mty) : mty * list tok :=
@@ -94,12 +100,34 @@ Fixpoint pointers (seen_star : bool) (toks : list tok) (ty : mty) : mty * list t
   | _ => (ty, toks)
   end.
 
-(* while (equal(tok, "static") || equal(tok, "restrict")) tok = tok->next; *)
-Fixpoint skip_static_restrict (toks : list tok) : list tok :=
+(* while (equal(tok, "static") || equal(tok, "restrict") || equal(tok, "const") || equal(tok, "volatile") || ..)
+     tok = tok->next; *)
+Fixpoint skip_static_quals (toks : list tok) : list tok :=
   match toks with
-  | TStatic :: r => skip_static_restrict r
-  | TQual QRestrict :: r => skip_static_restrict r
+  | TStatic :: r => skip_static_quals r
+  | TQual _ :: r => skip_static_quals r
   | _ => toks
+  end.
+
+(* len > INT32_MAX / MAX(ty->size, 1)   (int64_t len; the divisor is a positive int) *)
+Definition too_large (len : Z) (elem : mty) : bool :=
+  len >? 2147483647 / Z.max (ty_size elem) 1.
+
+(* tok->kind == TK_KEYWORD && is_typename(tok): the type keywords, qualifiers and storage class keywords *)
+Definition is_type_keyword (t : tok) : bool :=
+  match t with TBase _ | TQual _ | TStatic => true | _ => false end.
+
+(* equal(tok, "(") && !equal(tok->next, ")") && !(type keyword tok->next): the tokens inside the parentheses of a
+   nested declarator, if that is what follows *)
+Definition nested_start (toks : list tok) : option (list tok) :=
+  match toks with
+  | TLParen :: inner =>
+      match inner with
+      | TRParen :: _ => None
+      | t :: _ => if is_type_keyword t then None else Some inner
+      | [] => Some inner
+      end
+  | _ => None
   end.
 
 (* Token *name = NULL; if (tok->kind == TK_IDENT) { name = tok; tok = tok->next; } *)
@@ -125,8 +153,8 @@ Fixpoint declarator (fuel : nat) (toks : list tok) (ty : mty) {struct fuel}
   | O => OutOfFuel
   | S f =>
     let pt := pointers false toks ty in
-    match snd pt with
-    | TLParen :: inner =>
+    match nested_start (snd pt) with
+    | Some inner =>
         do r1 <- declarator f inner dummy;
         match snd r1 with
         | TRParen :: t3 =>
@@ -135,7 +163,7 @@ Fixpoint declarator (fuel : nat) (toks : list tok) (ty : mty) {struct fuel}
             Ok (fst (fst r3), snd (fst r3), snd r2)
         | _ => Err
         end
-    | _ =>
+    | None =>
         let nm := ident_opt (snd pt) in
         do r2 <- type_suffix f (snd nm) (fst pt);
         Ok (fst nm, fst r2, snd r2)
@@ -157,13 +185,13 @@ with array_dimensions (fuel : nat) (toks : list tok) (ty : mty) {struct fuel} : 
   match fuel with
   | O => OutOfFuel
   | S f =>
-    match skip_static_restrict toks with
+    match skip_static_quals toks with
     | TRBrack :: r =>
         do r2 <- type_suffix f r ty;
         Ok (array_of (fst r2) (-1), snd r2)
     | TNum n :: TRBrack :: r =>
         do r2 <- type_suffix f r ty;
-        Ok (array_of (fst r2) (int32 n), snd r2)
+        if too_large n (fst r2) then TooLarge else Ok (array_of (fst r2) (int32 n), snd r2)
     | _ => Err
     end
   end
@@ -205,8 +233,8 @@ Fixpoint abstract_declarator (fuel : nat) (toks : list tok) (ty : mty) {struct f
   | O => OutOfFuel
   | S f =>
     let pt := pointers false toks ty in
-    match snd pt with
-    | TLParen :: inner =>
+    match nested_start (snd pt) with
+    | Some inner =>
         do r1 <- abstract_declarator f inner dummy;
         match snd r1 with
         | TRParen :: t3 =>
@@ -215,7 +243,7 @@ Fixpoint abstract_declarator (fuel : nat) (toks : list tok) (ty : mty) {struct f
             Ok (fst r3, snd r2)
         | _ => Err
         end
-    | _ => type_suffix f (snd pt) (fst pt)
+    | None => type_suffix f (snd pt) (fst pt)
     end
   end.
 
